@@ -207,9 +207,16 @@ func runCfg(n *node, f *frame, funcNode, callNode *node) {
 	defer func() {
 		f.mutex.Lock()
 		f.recovered = recover()
-		for _, val := range f.deferred {
+		deferred := f.deferred
+		f.mutex.Unlock()
+
+		// Do not hold the frame lock while running the deferred calls: a deferred
+		// closure defined in this function locks the same frame when it returns.
+		for _, val := range deferred {
 			val[0].Call(val[1:])
 		}
+
+		f.mutex.Lock()
 		if f.recovered != nil {
 			oNode := originalExecNode(n, exec)
 			if oNode == nil {
